@@ -67,6 +67,26 @@ def judge_F(cmd, ans):
     status: 'ok' | 'deviation' (explained by named deviations -> keys) | 'violation' | 'unjudged' (no ABI for the pair / types outside)"""
     env, cc, va, ret, args, n = parse_F(cmd)
     abi = ABI.abi_of(env[0], env[1], env[2], cc)
+    if abi is None and env[0] == 0 and cc == 3 and ans.startswith("F ok") and n <= 32:
+        # 32-bit __vectorcall: only the REGISTER rule is specified here (Microsoft docs, confirmed with clang -target i386-pc-windows-msvc): the
+        # first two integer arguments of at most 32 bits travel in ECX / EDX and the k-th float / double / vector argument (k < 6) in XMM<k>;
+        # stack layout and by-reference passing of the rest are not specified by this oracle
+        impl = ABI.parse_detail(ans)
+        ki = kv_ = 0
+        for i, t in enumerate(args):
+            if not impl["args"][i]: continue
+            v = impl["args"][i][0]
+            if 32 <= t <= 39:          # (u)int8..32 and the abstract pointer-sized integers (32-bit here)
+                if ki < 2 and not (v[1] == 1 and v[3] == [1, 2][ki]):
+                    if any(u in (40, 41) for u in args[:i]):       # the halves of an earlier 64-bit integer took ECX / EDX (same defect as fastcall, DESIGN 7.30)
+                        return "deviation", ["C06/abi/vectorcall32/split-int64-regs"], "argument %d: integer #%d not in %s because a 64-bit integer was split into the registers: %s" % (i, ki, ["ECX", "EDX"][ki], v)
+                    return "violation", ["C06/abi/vectorcall32/integer-registers"], "argument %d: integer #%d not in %s: %s" % (i, ki, ["ECX", "EDX"][ki], v)
+                ki += 1
+            elif t in (42, 43) or 71 <= t <= 100:
+                if kv_ < 6 and not (v[1] == 1 and SH.rt_group(v[2]) == 1 and v[3] == kv_):
+                    return "deviation", ["C06/abi/vectorcall32/vector-registers"], "argument %d (type %d): float/vector #%d is not passed in XMM%d: %s" % (i, t, kv_, kv_, v)
+                kv_ += 1
+        return "ok", [], ""
     if abi is None:
         return "unjudged", [], "no ABI table for this (target, convention) pair"
     if n > 32:
@@ -82,12 +102,40 @@ def judge_F(cmd, ans):
         okc = ABI.check_consts(abi, dict(impl, spill=32))[0]
     if not okc:
         return "violation", ["C06/abi/%s/constants" % abi], whatc
-    ok, devs, what = ABI.explain(abi, va != 255, ret, args, impl)
+    ok, devs, what = ABI.explain(abi, va, ret, args, impl)
     if ok:
         return "ok", [], ""
     if devs is None:
         return "violation", ["C06/abi/%s/unexplained" % abi], what
     return "deviation", ["C06/abi/%s/%s" % (abi, d) for d in devs], what
+
+
+def wf_monitor(cmd, ans):
+    """independent monitor of C06_locations_disjoint on ONE implementation answer, for every convention (also those without an ABI table):
+    no register shared by two argument values, stack slots disjoint and in order, all inside arg_stack_size.  -> (key, what) or None"""
+    if not ans.startswith("F ok"): return None
+    d = ABI.parse_detail(ans)
+    env = parse_F(cmd)[0]
+    ptr = 4 if env[0] == 0 else 8
+    seen = {}; end = 0; last = None
+    for i, pack in enumerate(d["args"]):
+        for v in pack:
+            if v[1] == 1:
+                k = (SH.rt_group(v[2]), v[3])
+                if k in seen:
+                    return ("C06/wf/register-shared", "arguments %d and %d share register group %d id %d" % (seen[k], i, k[0], k[1]))
+                seen[k] = i
+            elif v[1] == 2:
+                size = ptr if v[5] else ABI.sizeof(v[0])
+                shape = "f80" if v[0] == 44 else "other"
+                if v[4] < end:
+                    return ("C06/wf/stack-slots-overlap/" + ("win64-f80" if last == "f80" and d["st"] in (1, 2) else "other"),
+                            "the stack slot of argument %d starts at +%d, inside the previous stack value that ends at +%d" % (i, v[4], end))
+                if v[4] + size > d["stack"]:
+                    return ("C06/wf/outside-stack-area/" + ("win64-f80" if shape == "f80" and d["st"] in (1, 2) else "other"),
+                            "argument %d occupies [+%d, +%d) but arg_stack_size is %d" % (i, v[4], v[4] + size, d["stack"]))
+                end = v[4] + size; last = shape
+    return None
 
 
 def explain_oob(x, y):
@@ -159,6 +207,7 @@ def part_A(ck, impl, model, rng, cov):
     regtypeid = [int(x) for x in ti.get("regtypeid", "").split(",")] if ti.get("regtypeid") else [0] * 32
     # ---- F: correspondence + oracle
     st = collections.Counter()
+    wf_hits = collections.Counter()
     dev_hits = collections.Counter()
     by_abi = collections.Counter()
     nontrivial = set()
@@ -167,6 +216,12 @@ def part_A(ck, impl, model, rng, cov):
     for cmd, x, y in zip(cmds[1:], ri[1:], rm[1:]):
         status, keys, what = judge_F(cmd, x)
         st[status] += 1
+        wfm = wf_monitor(cmd, x)
+        if wfm:
+            wf_hits[wfm[0]] += 1
+            ck.violation(wfm[0], "%s  [%s]" % (wfm[1], cmd), {"command": cmd, "impl": x, "model": y})
+        elif x.startswith("F ok"):
+            wf_hits["well-formed"] += 1
         env, cc, va, ret, args, n = parse_F(cmd)
         abi = ABI.abi_of(env[0], env[1], env[2], cc)
         if abi: by_abi[abi] += 1
@@ -204,7 +259,7 @@ def part_A(ck, impl, model, rng, cov):
     for c, a in bad[:5]:
         ck.violation("C06/theorem-instance/" + c.replace(" ", "_")[:80], "extracted model contradicts C06_assign_matches_abi on %s: %s" % (c, a),
                      {"command": c, "model": a, "broken": "theorem C06_assign_matches_abi (extraction / driver)"}, no_input=True)
-    cov.update({"A_commands": len(cmds), "A_oracle_status": dict(st), "A_by_abi": dict(by_abi), "A_known_deviation_hits": dict(dev_hits),
+    cov.update({"A_commands": len(cmds), "A_oracle_status": dict(st), "A_by_abi": dict(by_abi), "A_known_deviation_hits": dict(dev_hits), "A_wf_monitor (C06_locations_disjoint on every answer)": dict(wf_hits),
                 "A_model_vs_impl_disagreements": disagreements, "A_under_theorem_guard": guarded,
                 "A_monitor": {k: v for k, v in mon.most_common(6)}})
     return cmds, ri, nontrivial, samples, regtypeid
@@ -549,14 +604,83 @@ def part_B(ck, impl, model, rng, cov, regtypeid):
                 "B_instructions": sum(len(S["insts"]) for S in Ss),
                 "B_mnemonics": dict(collections.Counter(m for S in Ss for m, _ in S["insts"]).most_common(30))})
     part_B_native(ck, impl, cmds, Ss, info, verdict, rng, cov)
+    part_B_solver(ck, model, cmds, Ss, info, cov)
     return cmds, nontrivial, samples, st
+
+
+def part_B_solver(ck, model, cmds, Ss, info, cov):
+    """functional correspondence of the SOLVER: for assignments inside the fragment of coq/theories/CallConv/SolverModel.v (every move register to
+    register inside the GP group, integer types, SP-based frame) the proven model of emit_args_assignment must emit exactly the instruction list the
+    implementation emitted (compared in the validator's language), and refuse exactly when the implementation refuses"""
+    idx = []; wcmds = []
+    for i, (c, S) in enumerate(zip(cmds, Ss)):
+        arch = S.get("arch")
+        mvs = info[i]
+        if arch not in (1, 2) or not mvs or "dirty" not in S: continue
+        if S["status"] != "ok" and S.get("err") != "emit:invstate": continue
+        if S["sareg"] != S["sp"] or S.get("da"): continue
+        if not all(m["src"][0] == "R" and m["dst"][0] == "R" and m["src"][1] == 0 and m["dst"][1] == 0 and SH.is_intty(m["sty"]) and SH.is_intty(m["dty"]) for m in mvs): continue
+        if len(mvs) != sum(1 for d in parse_S_cmd(c)[4] if d[0] != 0): continue          # some requested move is not in the fragment (stack / other group)
+        excl = {4} if arch == 1 else {18, 31}
+        work = sorted(({l[2] for l in SH.allowed_locs(S) if l[1] == 0} | {m["src"][2] for m in mvs}) - excl)
+        ws = "W %d %d %s %d %s" % (0 if arch == 1 else 1, len(work), " ".join(map(str, work)), len(mvs),
+                                   " ".join("%d %d %d %d %d %d" % (m["src"][2], m["sbits"] // 8, 1 if m["sty"] in SH.SIGNED else 0,
+                                                                      m["dst"][2], m["dbits"] // 8, 1 if m["dty"] in SH.SIGNED else 0) for m in mvs))
+        idx.append(i); wcmds.append(ws)
+    rw = run_lines(model, wcmds)
+    st = collections.Counter()
+    for i, w, a in zip(idx, wcmds, rw):
+        S = Ss[i]
+        if S["status"] != "ok":
+            want = "W err"
+            got = a
+        else:
+            try:
+                want = " ; ".join(SH.minst_txt(m) for m in SH.translate(S))
+            except SH.Unmodelled:
+                st["unmodelled"] += 1; continue
+            got = a.split(" ", 3)[3] if a.startswith("W ok") and len(a.split(" ", 3)) > 3 else (a if not a.startswith("W ok") else "")
+            if a.startswith("W ok") and ",wf=1" not in a.split()[2]:
+                st["outside_wf_input"] += 1          # hypothesis of the C06_solver_* theorems not met (never expected inside the fragment filter)
+            if a.startswith("W ok valid=0"):
+                ck.violation("C06/solver/model-output-not-valid/" + cmds[i].replace(" ", "_")[:70], "the verified validator rejects what the solver MODEL emits for [%s]: %s" % (cmds[i], a),
+                             {"command": cmds[i], "model": a, "broken": "SolverModel.v / theorem C06_solver_*"}, no_input=True)
+        def canon(txt):          # xchg is symmetric and the encoding does not keep the operand order: order its two operands
+            out = []
+            for part in txt.split(" ; "):
+                f = part.split()
+                if f and f[0] == "G":
+                    a, b = tuple(f[1:4]), tuple(f[4:7])
+                    if (int(b[1]), int(b[2])) < (int(a[1]), int(a[2])): a, b = b, a
+                    f = ["G"] + list(a) + list(b) + f[7:]
+                out.append(" ".join(f))
+            return " ; ".join(out)
+        got, want = canon(got), canon(want)
+        if got == want:
+            st["same_instruction_list" if S["status"] == "ok" else "both_refuse"] += 1
+            if S["status"] == "ok": st["instructions_compared"] += len(S["insts"])
+        else:
+            st["differs"] += 1
+            ck.violation("C06/solver/correspondence/" + cmds[i].replace(" ", "_")[:70], "solver model and emit_args_assignment differ on [%s]: implementation `%s`, model `%s`" % (cmds[i], want, got),
+                         {"command": cmds[i], "impl": S["raw"][:600], "model": a, "broken": "correspondence of SolverModel.v with BaseEmitHelper::emit_args_assignment"}, no_input=True)
+    cov["B_solver_model"] = dict(st)
 
 
 def part_B_native(ck, impl, cmds, Ss, info, verdict, rng, cov):
     """execute the emitted x86-64 shuffles on the host CPU (harness command X) from random register / frame images: the CPU's final state must
     equal the python simulator's prediction (validates the simulator and the whitelist semantics against the real machine), and destinations the
     verified validator accepted must hold the required values natively"""
-    idx = [i for i, S in enumerate(Ss) if S.get("arch") == 1 and S["status"] == "ok" and S.get("asm") == "ok" and S["insts"] and NAT.eligible(S, info[i])]
+    # i386 shuffles cannot be run as 32-bit code on this host; they are run in 64-bit mode when llvm-mc decodes their bytes to the SAME
+    # instructions under -triple=x86_64 (mov / movzx / movsx / xchg / SSE moves with ESP-relative operands encode identically; a 32-bit
+    # register write zero-extends, which the simulator models the same way), so the host CPU cross-validates the simulator on them too
+    i386 = [i for i, S in enumerate(Ss) if S.get("arch") == 0 and S["status"] == "ok" and S.get("asm") == "ok" and S["insts"]]
+    try:
+        dis64 = SH.disassemble([Ss[i]["bytes"] for i in i386], 1)
+    except RuntimeError:
+        dis64 = [None] * len(i386)
+    for i, d in zip(i386, dis64):
+        Ss[i]["same_in_long_mode"] = d is not None and d == Ss[i]["insts"]
+    idx = [i for i, S in enumerate(Ss) if S.get("arch") in (0, 1) and S["status"] == "ok" and S.get("asm") == "ok" and S["insts"] and NAT.eligible(S, info[i])]
     limit = 1500 if ck.tier == "quick" else 40000
     if len(idx) > limit:
         idx = sorted(rng.sample(idx, limit))
@@ -581,6 +705,7 @@ def part_B_native(ck, impl, cmds, Ss, info, verdict, rng, cov):
         except SH.SimError:
             st["simulator_unmodelled"] += 1; continue
         st["executed"] += 1
+        if S.get("arch") == 0: st["executed_i386_in_long_mode"] += 1
         if pred != out:
             diff = [k for k in range(NAT.BLOB) if pred[k] != out[k]][:6]
             st["cpu_vs_simulator_differs"] += 1
@@ -599,6 +724,62 @@ def part_B_native(ck, impl, cmds, Ss, info, verdict, rng, cov):
             st["native_all_destinations_right"] += 1
             if v is not None and v.startswith("V 1"): st["validated_and_natively_right"] += 1
     cov["B_native"] = dict(st)
+
+
+# ====================================================================================================== part C: call sites
+MIX = [(1, 0), (1, 1), (2, 0), (2, 1), (4, 0), (4, 1), (8, 0), (8, 1)] * 2          # (bytes, signed) of cb_mix's parameters
+SPECIAL = [0, 1, -1, 0x7F, 0x80, 0xFF, 0x7FFF, 0x8000, 0xFFFF, 0x7FFFFFFF, 0x80000000, 0xFFFFFFFF, 0x100000000, -0x80000000, -0x80000001,
+           0x7FFFFFFFFFFFFFFF, -0x8000000000000000, 0x123456789ABCDEF0, 0xFFFFFFFF00000000 - (1 << 64), 0x80000000FFFFFFFF - (1 << 64)]
+
+
+def part_C(ck, impl, rng, cov):
+    """call-site marshalling (x86rapass on_before_invoke / move_imm_to_reg_arg / move_imm_to_stack_arg / move_reg_to_stack_arg): a Compiler-built
+    function calls C callees of the host (SysV x86-64) ABI with immediates and virtual registers; every received value is compared with the C
+    conversion of the passed value to the parameter type.  Host execution: the callee is compiled by the host C++ compiler."""
+    n = 600 if ck.tier == "quick" else 20000
+    cmds = []
+    for _ in range(n):
+        kind = rng.choice([0, 0, 1, 2, 2, 3])
+        cnt = 16 if kind == 2 else 12
+        parts = ["I", str(kind), str(cnt)]
+        for i in range(cnt):
+            v = rng.choice(SPECIAL) if rng.random() < 0.6 else rng.getrandbits(64) - (1 << 63)
+            mode = 1 if rng.random() < 0.35 else 0
+            if kind == 3 and i < 8: mode = 1           # double register arguments travel in virtual registers (an immediate cannot name an XMM value)
+            parts += [str(mode), str(v)]
+        cmds.append(" ".join(parts))
+    try:
+        rs = run_lines(impl, cmds, shards=8)
+    except RuntimeError as e:
+        ck.violation("C06/invoke/harness-crash", "call-site harness crashed: %s" % e, {"broken": "harness (invoke runner)"}, no_input=True)
+        cov["C_invoke"] = {"crashed": 1}
+        return cmds
+    st = collections.Counter()
+    for c, a in zip(cmds, rs):
+        f = c.split(); kind = int(f[1]); cnt = int(f[2])
+        if a.startswith("I err=host"):
+            st["not an x86-64 host"] += 1; continue
+        if not a.startswith("I ok"):
+            ck.violation("C06/invoke/refused/" + a.split("=")[-1], "the Compiler refused the call  [%s] -> %s" % (c, a), {"command": c, "impl": a})
+            continue
+        got = [int(x) for x in a.split()[2:]]
+        st["calls"] += 1
+        for i in range(cnt):
+            mode, v = int(f[3 + 2 * i]), int(f[4 + 2 * i])
+            size, signed = (8, 1) if kind in (0, 3) else (4, 1) if kind == 1 else MIX[i]
+            w = v & ((1 << (8 * size)) - 1)
+            want = w - (1 << (8 * size)) if (signed and w >> (8 * size - 1)) else w
+            if want >= 1 << 63: want -= 1 << 64
+            st["arguments"] += 1
+            where = "reg" if (i < 8 if kind == 3 else i < 6) else "stack"
+            if got[i] != want:
+                key = "C06/invoke/wrong-value/%s%d-%s-to-%s" % ("f" if kind == 3 else ("i" if signed else "u"), 8 * size, "imm" if mode == 0 else "vreg", where)
+                ck.violation(key, "the C callee received %#x for parameter %d (%s, %s), passed %#x -> expected %#x  [%s]" %
+                             (got[i] & (2 ** 64 - 1), i, key.split("/")[-1], where, v & (2 ** 64 - 1), want & (2 ** 64 - 1), c), {"command": c, "impl": a})
+            else:
+                st["%s_%s_right" % ("imm" if mode == 0 else "vreg", where)] += 1
+    cov["C_invoke"] = dict(st)
+    return cmds
 
 
 def cap_violations(ck, per_class=12):
@@ -667,9 +848,11 @@ def run(ck):
         cmdsA, riA, ntA, samplesA, regtypeid = part_A(ck, impl, model, rng, cov)
         clang_oracle(ck, cmdsA, riA, random.Random(ck.seed + 1), cov)
         cmdsB, ntB, samplesB, stB = part_B(ck, impl, model, random.Random(ck.seed + 2), cov, regtypeid)
+        cmdsC = part_C(ck, impl, random.Random(ck.seed + 3), cov)
     except RuntimeError as e:
         ck.violation("C06/harness-crash", "harness or model driver failed: %s" % e, {"broken": "harness", "detail": str(e)}, no_input=True)
         cmdsA = cmdsB = []; ntA = ntB = set(); samplesA = samplesB = []; stB = {}
+    if "cmdsC" not in dir(): cmdsC = []
     # coverage floors (DESIGN 4.1: "coverage is explicit, never vacuous"): a run that silently judges much less than at claim time fails
     if cmdsA:
         mult = 1 if ck.tier == "quick" else 10
@@ -688,7 +871,7 @@ def run(ck):
                      {"broken": "theorem " + o["name"], "file": "coq/theories/Properties/Properties_C06.v"}, no_input=True)
     cov.update({
         "violations_not_listed (beyond 12 per key class)": dict(dropped),
-        "evaluations": len(cmdsA) + len(cmdsB),
+        "evaluations": len(cmdsA) + len(cmdsB) + len(cmdsC),
         "distinct_nontrivial": len(ntA) + len(ntB),
         "rule": "part A: distinct (environment, convention, varargs, return type, argument types) commands from VERIF_SEED (all conventions x environments, every return "
                 "type, exhaustive short signatures over 14 type classes, random up to 32 arguments biased to register exhaustion, vectors at positions 16..31); non-trivial = "
